@@ -153,6 +153,29 @@ def pipeline(ctx, genmodule, suite, judgemodule, judgecfg, parts, unit, sample, 
             ctx.drive(suite, cft, oft)
             vs = pjudge(ctx, judgemodule, judgecfg(batch[0][0]["group"]), oft, names + "_tz", parts=4 if ctx.quick else 8)
             ctx.note("%s with tz('%s'), windows around the repeated hour: %d cases (%.0fs; %d not ok)" % (names, tz, ctx.count_lines(oft), time.time() - t0, len(vs)))
+        if tzs:
+            # C18: (a) the histories whose initial condition is `true` once more on a statement WITHOUT a WHERE clause,
+            # (b) a share of all histories on a statement whose time column was renamed (`time AS ts` + RewriteTimeFields)
+            cfv = ctx.path("cases_%s_var.ndjson" % names)
+            nv = 0
+            with open(cf, encoding="utf-8") as g, open(cfv, "w", encoding="utf-8") as out:
+                for i, line in enumerate(g):
+                    c = json.loads(line)
+                    if isinstance(c, str):
+                        c = json.loads(c)
+                    cc = c.get("c") or {}
+                    if cc.get("n") == "leaf" and (cc.get("x") or {}).get("a") == "bool" and (cc.get("x") or {}).get("b") is True:
+                        out.write(json.dumps(dict(c, nowhere=True), ensure_ascii=False) + "\n")
+                        nv += 1
+                    if (not ctx.quick and i % 2 == 0) or i % 5 == (ctx.seed + 1) % 5:
+                        out.write(json.dumps(dict(c, talias=True), ensure_ascii=False) + "\n")
+                        nv += 1
+            ofv = ctx.path("obs_%s_var.ndjson" % names)
+            t0 = time.time()
+            ctx.drive(suite, cfv, ofv)
+            vs = pjudge(ctx, judgemodule, judgecfg(batch[0][0]["group"]), ofv, names + "_var", parts=4 if ctx.quick else 8)
+            ctx.note("%s on statements without WHERE clause / with a renamed time column: %d cases (%.0fs; %d not ok)"
+                     % (names, ctx.count_lines(ofv), time.time() - t0, len(vs)))
         os.remove(cf)
 
     def after_gen(p, sub, cf, r):
